@@ -68,6 +68,16 @@ Proof.
   cbn [map] in H. inversion H as [[K1 K2 K3]]. cbn [existsb]. rewrite K2. f_equal. apply IH. exact K3.
 Qed.
 
+(* where the first stated hypothesis of the PoA theorem holds on the code as it is: two or more listed nodes *)
+Lemma state_updates_agree l ups : length l <> 1%nat -> state_apply_updates l ups = apply_updates_list l ups.
+Proof. destruct l as [|a [|b t]]; cbn [length state_apply_updates]; intros H; try reflexivity. contradiction. Qed.
+
+(* ... and where it does not: the sole listed node (observed on the implementation by the harness: the cached flag differs
+   from the state's; verdicts still agree there because the node is eligible as the signer either way) *)
+Lemma sole_node_cache_flag_diverges :
+  exists l ups, state_apply_updates l ups <> apply_updates_list l ups.
+Proof. exists [mkAC 7 8 false], [(7, true)]. vm_compute. discriminate. Qed.
+
 Section CacheProofs.
   Variable Blk : Type.
   Variable blk_eqb : Blk -> Blk -> bool.
@@ -91,7 +101,9 @@ Section CacheProofs.
 
   (* THE STATED HYPOTHESES: the candidate list and the endorsement selection change only through what the cacher
      watches.  For an accepted child b of p (judged on the fresh proposer list) with scheduler updates ups and events ev:
-     - without an Authority event, the list after b is the list after p with the activity updates applied;
+     - without an Authority event, the list after b is the list after p with the activity updates applied
+       (true of the code for two or more listed nodes: state_updates_agree; NOT for a sole listed node, whose flag
+       authority.Update does not write: sole_node_cache_flag_diverges — the theorem does not cover that corner);
      - without a Params event, a Staker event (from HAYABUSA on) and a VET transfer from/to an endorsor of the list,
        the balance check of every listed pair and the proposer limit are the same after b as after p
        (this includes: the check for height n+2 on b's state equals the check for height n+1 on p's state). *)
